@@ -23,6 +23,7 @@ type c07Spec struct {
 	Alpha    []string `json:"alpha,omitempty"`
 	D        int      `json:"d,omitempty"`
 	Word     []string `json:"word,omitempty"`
+	Long     *lwSpec  `json:"long,omitempty"` // a long world (long.go) instead of words
 }
 
 var c07Ferts = []string{"KAS", "AHL", "H", "NPK", "ALZ", "AZU", "NIT", "RG", "SM", "RM", "RSG", "SG", "SSM", "HG", "HFM", "HM", "CK", "KSL", "BAK", "BA2", "URE", "RG1", "RG2", "RG3", "RG4", "RG5", "FM", "AS", "DAP"}
@@ -80,6 +81,10 @@ func c07Specs(tier string, seed int) []c07Spec {
 				}
 			}
 		}
+	}
+	for _, lw := range lwSpecs(tier, seed, false) {
+		lw := lw
+		out = append(out, c07Spec{Long: &lw})
 	}
 	return out
 }
@@ -274,6 +279,12 @@ func c07Run(raw json.RawMessage, c *mc.Ctx) {
 	sp := mc.Decode[c07Spec](raw)
 	root := scratchRoot()
 	defer os.RemoveAll(root)
+	if sp.Long != nil {
+		lwRun(c, *sp.Long, root, nil, func(w *lwInfo) *hermes.VerifProbe {
+			return (&c07Probe{c: c, label: "long world " + w.Name}).probe()
+		})
+		return
+	}
 	ws := words(sp.Alpha, sp.D)
 	if sp.Word != nil {
 		ws = [][]string{sp.Word}
